@@ -543,7 +543,7 @@ def probe_prices(spec):
         w_ = cj / f0 if f0 != 0 and cj != 0 else 1.0
         op.b[i] = b0 - w_ * d          # sum disp + d = 0
         try:
-            r = op.optimize()
+            r = op.optimize(**dict(spec.get('opts', {}).get('optimize', {})))
         finally:
             op.b[i] = b0
         o['injections'].append({'k': k, 'step': int(t), 'node': str(node), 'd': d,
@@ -555,7 +555,7 @@ def probe_prices(spec):
         b0 = op.b[nidx[k]]
         op.b[nidx[k]] = b0 - d          # sum disp + d = 0
         try:
-            r = op.optimize()
+            r = op.optimize(**dict(spec.get('opts', {}).get('optimize', {})))
         finally:
             op.b[nidx[k]] = b0
         t, node = op.map_nodal_restr[k]
